@@ -300,6 +300,11 @@ func knownFindings(r *Report, repo string) {
 	knownAt(r, &shapes.N3{Go: sdf.Offset3D(rot, 0.5), Desc: "Offset3(Transform3(Extrude(Box2D({2 2},0),2),RotateX(pi/4)),0.5)", Cl: leaf}, v3.Vec{X: 0, Y: 0, Z: 2})
 	sh, _ := sdf.Shell3D(rot, 0.5)
 	knownAt(r, &shapes.N3{Go: sh, Desc: "Shell3(Transform3(Extrude(Box2D({2 2},0),2),RotateX(pi/4)),0.5)", Cl: leaf}, v3.Vec{X: 0, Y: 0, Z: 1.6875})
+	// (1b) a NEGATIVE offset shrinks the box by |offset|, which is only sound when the operand never
+	// overestimates distance: a non-uniformly scaled sphere does (gradient 2 along x)
+	sph, _ := sdf.Sphere3D(1)
+	sq := sdf.Transform3D(sph, sdf.Scale3d(v3.Vec{X: 0.5, Y: 1, Z: 1}))
+	knownAt(r, &shapes.N3{Go: sdf.Offset3D(sq, -0.25), Desc: "Offset3(Transform3(Sphere(1),Scale3d(0.5,1,1)),-0.25)", Cl: leaf}, v3.Vec{X: 0.3, Y: 0, Z: 0})
 	// (2) material-adding blend on a union: the fillet leaves the union of the operand boxes
 	s1, _ := sdf.Sphere3D(1)
 	u := sdf.Union3D(sdf.Transform3D(s1, sdf.Translate3d(v3.Vec{X: -1})), sdf.Transform3D(s1, sdf.Translate3d(v3.Vec{X: 1})))
